@@ -69,6 +69,12 @@ def step (st : St) (j : Json) : R (St × Json) := do
         | none => Json.null
         | some e => Json.str (errName e)
       pure ({ st with v := some r.1 }, obj [("comps", ofList ofBC r.1), ("raised", e)])
+  | "internal_to_dirichlet" =>
+    match st.v with
+    | none => pure (st, err "no-object")
+    | some v =>
+      let v' := v.map (internalToDirichlet st.g)
+      pure ({ st with v := some v' }, obj [("comps", ofList ofBC v'), ("raised", Json.null)])
   | _ => throw s!"unknown op {op}"
 
 def main : IO Unit := runDriver ({ g := ⟨0, fun _ => false, fun _ => false, fun _ => false⟩, v := none } : St) step
